@@ -330,6 +330,15 @@ class Verifier(Executor):
     def apply_hints(self, st, hints, extra_env):
         for h in hints or []:
             node = parse_expr(h)
+            inner = node
+            while isinstance(inner, ast.Call) and isinstance(inner.func, ast.Name) and inner.func.id == "forall" and len(inner.args) == 4:
+                inner = inner.args[3]  # forall(x, lo, hi, axiom_...(...)): a family of instances
+            if inner is not node and isinstance(inner, ast.Call) and isinstance(inner.func, ast.Name) and inner.func.id.startswith("axiom_"):
+                if inner.func.id not in self.contracts.macros or inner.func.id not in getattr(self.contracts, "axioms", {}):
+                    raise VerifError(f"undeclared axiom schema: {inner.func.id}")
+                self.used_axioms.add(inner.func.id)
+                st.assume(self.eval_spec(node, st, extra_env))
+                continue
             if isinstance(node, ast.Call) and isinstance(node.func, ast.Name) and node.func.id.startswith("axiom_"):
                 # instance of a declared, UNPROVED axiom schema (a macro of the specification layer, listed among the assumptions of the evidence)
                 if node.func.id not in self.contracts.macros or node.func.id not in getattr(self.contracts, "axioms", {}):
@@ -491,6 +500,8 @@ class Verifier(Executor):
                         s2.pre_stack = s2.pre_stack[:-2]
                         results.append((s2, ("next",)))
                     else:
+                        if out[0] == "return":
+                            self.apply_hints(s2, lc.get("return_hints"), {})  # lemma / axiom instances for a return from inside the loop (it0 still in scope)
                         s2.pre_stack = s2.pre_stack[:-2]
                         results.append((s2, out))
         # exit: invariant and not test
